@@ -587,7 +587,10 @@ static void caseRevolve(vh::Ctx& c) {
   if (r.chance(0.1)) deg = 90.0 * r.range(1, 4);
   std::string desc = "polygon=" + gp.name + ",place=" + std::to_string(place) + ",circularSegments=" + std::to_string(segs) + ",revolveDegrees=" + f17(deg);
   auto describe = [&] { return vh::J().s("ctor", "Revolve").s("args", desc).raw("crossSection", polyJson(gp.p)).str(); };
-  if (place == 3 || k == 0) {  // nothing on the positive side: rejected by the code; the doc only says that side is ignored
+  double maxX = -1e300;
+  for (auto& ct : gp.p)
+    for (auto& v : ct) maxX = std::max(maxX, v.x);
+  if (place == 3 || k == 0 || !(maxX > 0)) {  // nothing on the positive side: rejected by the code; the doc only says that side is ignored
     c.site("Revolve(all x<0)");
     Manifold m = Manifold::Revolve(gp.p, segs, deg);
     observeUndocumented(c, m, "revolve_nothing_right_of_axis");
